@@ -99,32 +99,61 @@ PARSE_FACTS = {
 
 PROPS = {}
 
+GEN_OPS = ("GNLI ", "GNC ", "GSPLIT ", "GFP ", "GSL ")
+
+
+def with_gen(cmp):
+    """GEN ops validate the translator: the model column is the *generated* definition (GoSSE/Gen), the
+    specification column the hand-written model; the real leaf function must agree with both."""
+    def f(case, go, m, s):
+        if case.startswith(GEN_OPS):
+            return go == m, go == s
+        return cmp(case, go, m, s)
+    return f
+
+
+def hist_with_gen(h):
+    def f(case, go):
+        if case.startswith(GEN_OPS):
+            return ["op:" + case.split(" ")[0]]
+        return h(case, go)
+    return f
+
+
+GEN_NOTE = ("the leaf functions (NewlineIndex, NextChunk, trimFirstSpace, getFieldName, splitFunc, FieldParser.*, isSingleLine, "
+            "topicsIntersect) are translated from /repo's source to Lean on every run (translate/) and proved equal to the "
+            "model (GoSSE/Proofs/GenEquiv.lean); the translator's reading of Go (GoSSE/GoRT.lean) is validated by the GEN ops")
+
 PROPS["C01"] = {
     "gens": [{"id": "C01", "quick": 40000, "thorough": 1600000, "thorough_seeds": 16},
              # exhaustive small scope (thorough only): all strings of <= 5 macro symbols x whole / byte-wise / every cut
-             {"id": "C01X", "quick": 0, "thorough": 1, "thorough_seeds": 1}],
-    "compare": cmp_parse,
+             {"id": "C01X", "quick": 0, "thorough": 1, "thorough_seeds": 1},
+             {"id": "GEN", "quick": 3000, "thorough": 60000, "thorough_seeds": 4}],
+    "generated_layer": True,
+    "compare": with_gen(cmp_parse),
     "nontrivial": lambda c, g: not g.startswith("- | nil"),
     "rule": "grammar-directed event streams (70% well-formed, 30% hostile fragments) x segmentation (whole, byte-wise, random, "
             "cuts inside CRLF/BOM/runes) x end kind (EOF, error, error with last bytes) x entry point (Read, Connection) x "
             "buffer configuration x early stop; non-trivial = at least one event or a non-nil end condition; distinct by case line",
-    "hist": hist_parse,
-    "assumptions": PARSE_ASSUME,
+    "hist": hist_with_gen(hist_parse),
+    "assumptions": PARSE_ASSUME + [GEN_NOTE],
     "facts": PARSE_FACTS,
     "exhaustive_subruns": ["C01X: every string of up to 5 symbols over {LF, CR, ':', ' ', 'data', 'id', 'x'} x {whole, byte-wise, "
                            "every single cut point} x {EOF, read error} (model validation / failing-input search, not the proof)"],
 }
 
 PROPS["C20"] = {
-    "gens": [{"id": "C20", "quick": 6000, "thorough": 200000, "thorough_seeds": 16}],
-    "compare": cmp_c20,
+    "gens": [{"id": "C20", "quick": 6000, "thorough": 200000, "thorough_seeds": 16},
+             {"id": "GEN", "quick": 3000, "thorough": 60000, "thorough_seeds": 4}],
+    "generated_layer": True,
+    "compare": with_gen(cmp_c20),
     "corpus_also": ["C01"],
     "nontrivial": lambda c, g: not g.startswith("- | nil"),
     "rule": "streams with event sizes L-4..L+4 around the limit L (default 65536, 4096, random 2..300; via ReadConfig and all "
             "Connection.Buffer shapes), endless lines / blank-line runs / comment runs / events, random segmentation, counting "
             "reader; non-trivial = an event or an error was reported; distinct by case line",
-    "hist": hist_parse,
-    "assumptions": PARSE_ASSUME,
+    "hist": hist_with_gen(hist_parse),
+    "assumptions": PARSE_ASSUME + [GEN_NOTE],
     "facts": PARSE_FACTS,
 }
 
